@@ -317,9 +317,10 @@ def note_sequence_to_pretty_midi(
                                seq_cc.control_number,
                                seq_cc.control_value, seq_cc.time))
 
+  default_instrument_used = False
   for (instr_id, prog_id, is_drum) in sorted(instrument_events.keys()):
-    # For instr_id 0 append to the instrument created above.
-    if instr_id > 0:
+    # For the first group with instr_id 0 use the instrument created above.
+    if instr_id > 0 or default_instrument_used:
       if is_drum:
         name = 'Drums'
       else:
@@ -327,6 +328,7 @@ def note_sequence_to_pretty_midi(
       instrument = pretty_midi.Instrument(prog_id, is_drum, name)
       pm.instruments.append(instrument)
     else:
+      default_instrument_used = True
       instrument.is_drum = is_drum
     # propagate instrument name to the midi file
     instrument.program = prog_id
